@@ -380,8 +380,10 @@ extern int mpt_graph_get(const MPT_STRUCT(graph) *gr, MPT_STRUCT(property) *pr)
 	if (!gr) {
 		return 0;
 	}
+	/* compare raw data before replacing it with a (larger) text alias */
+	pos = mpt_value_compare(&pr->val, ((uint8_t *) &def_graph) + elem[pos].off);
 	if (!strcmp(pr->name, "clip") && gr->clip < 8) {
 		MPT_property_set_string(pr, axes_clip[gr->clip]);
 	}
-	return mpt_value_compare(&pr->val, ((uint8_t *) &def_graph) + elem[pos].off);
+	return pos;
 }
